@@ -413,7 +413,7 @@ def framing(out, root):
     return (kind, payload)
 
 
-def render_observations(col, L, prog, history, case):
+def render_observations(col, L, prog, history, case, quick=False):
     """First visit of a state: what is actually rendered must be what the effective values dictate."""
     root = prog["root"]
     if root == "block":
@@ -423,7 +423,10 @@ def render_observations(col, L, prog, history, case):
         T.model.apply(op)
         impl_apply(L, T, op)
     m = T.model
-    for n in m.classes + m.instances:
+    nodes = m.classes + m.instances
+    if quick:                              # quick tier: a fresh instance of the most derived class only
+        nodes = m.classes[-1:] + m.instances
+    for n in nodes:
         inst = T.nodes[n] if n.startswith("i") else new_instance(T, n)
         eff_rm = m.eff("rm", n)
         want_kind = "whole" if eff_rm == "anim" else eff_rm       # ANIM on a still image renders as WHOLE
@@ -566,6 +569,8 @@ def programs(tier):
             for g in groups:
                 if root == "block" and g == "fs":
                     continue
+                if quick and shape == "RA+RB" and g in ("jq", "rff"):
+                    continue          # quick tier: sibling classes are explored for rm / fs / nab only
                 bg = (not quick) or shape == "RA" or g in ("fs", "nab")
                 progs.append(dict(root=root, shape=shape, group=g, background=bg, kind="bfs"))
     for root in ("kitty", "iterm2"):
@@ -598,7 +603,7 @@ def expand_state(col, L, prog, ops, h):
     Returns the list of (new history, canon key) of the non-violating transitions."""
     succ = []
     try:
-        render_observations(col, L, prog, h, case_of(prog, h))
+        render_observations(col, L, prog, h, case_of(prog, h), _CTX.tier == "quick")
     except world.HarnessError:
         raise
     except Exception as e:
